@@ -146,12 +146,23 @@ def scheme_case(spec, res):
     # every label in one call, then label by label, no reset in between - and the table is read again after every call
     if lab is not None and len(lab) == M:
         try:
-            mod2, _ = MC.build(spec)
+            mod2, dem2 = MC.build(spec)
+            dpts0 = MC.table(dem2)[0] if dem2 is not None and hasattr(dem2, "constellation") else None
             seq = [list(l) for l in lab]
             calls = [[x for l in seq for x in l]] + [(l + l if MC.KIND[scheme] == "offset" else l) for l in (seq if M <= 64 else seq[:8] + seq[-8:])]
             for ci, bits_ in enumerate(calls):
-                mod2(torch.tensor([bits_], dtype=torch.float32))
+                y2 = mod2(torch.tensor([bits_], dtype=torch.float32))
                 pts_after, lab_after = MC.table(mod2)
+                if dpts0 is not None:
+                    try:
+                        dem2(y2)
+                        dem2(y2, 0.5)
+                    except Exception:  # noqa: BLE001   (what the demodulator accepts is C05 / C06's business)
+                        pass
+                    dnow = MC.table(dem2)[0]
+                    if len(dnow) != len(dpts0) or any(abs(a - c) > 1e-6 * scale for a, c in zip(dnow, dpts0)):
+                        v("table-stable", f"after demodulating data ({ci + 1} calls on a fresh demodulator) its published constellation differs from the one published at construction")
+                        break
                 res.ev(len(bits_) // b, nontrivial=1, transitions=1)
                 if pts_after is None or len(pts_after) != M or any(abs(a - c) > 1e-6 * scale for a, c in zip(pts_after, pts)) or (lab_after is not None and list(lab_after) != list(lab)):
                     i = next((i for i in range(min(M, len(pts_after or []))) if abs(pts_after[i] - pts[i]) > 1e-6 * scale), None)
